@@ -34,7 +34,7 @@ func runFill(kind, opts, req string) (observed string, rnd string, aux string) {
 	aux = "-"
 	h := fnv.New64a()
 	h.Write([]byte(kind + "|" + opts + "|" + req))
-	mrand.Seed(int64(h.Sum64() >> 1))
+	seed := int64(h.Sum64() >> 1)
 	kv := map[string]string{}
 	for _, p := range strings.Split(opts, ";") {
 		if i := strings.IndexByte(p, '='); i > 0 {
@@ -42,6 +42,11 @@ func runFill(kind, opts, req string) (observed string, rnd string, aux string) {
 		}
 	}
 	atoi := func(k string) int { v, _ := strconv.Atoi(kv[k]); return v }
+	// "seed=S;skip=K": the K+1-th frame the filler produces after Seed(S) (extreme-draw search)
+	if _, ok := kv["seed"]; ok {
+		seed = int64(atoi("seed"))
+	}
+	mrand.Seed(seed)
 	rf := strings.Split(req, ",")
 	port, _ := strconv.Atoi(rf[4])
 	r := &scan.Request{SrcIP: net.IP(hx.UnHex(rf[0])), DstIP: net.IP(hx.UnHex(rf[1])), SrcMAC: hx.UnHex(rf[2]), DstMAC: hx.UnHex(rf[3]), DstPort: uint16(port)}
@@ -76,6 +81,10 @@ func runFill(kind, opts, req string) (observed string, rnd string, aux string) {
 	}
 	buf.Clear()
 	var err error
+	for k := atoi("skip"); k > 0; k-- {
+		hx.Recover(func() { filler.Fill(buf, r) })
+		buf.Clear()
+	}
 	panicked, _ := hx.Recover(func() { err = filler.Fill(buf, r) })
 	if panicked {
 		return "PANIC", "0,0,0", aux
@@ -90,15 +99,16 @@ func runFill(kind, opts, req string) (observed string, rnd string, aux string) {
 	}
 	id, p1, seq := 0, 0, uint32(0)
 	if kind != "arp" && len(b) >= off+28 {
-		id = int(binary.BigEndian.Uint16(b[off+4:])) - 1
+		// the draw behind a field, modulo the field width (an id field of 0 reads as draw 65535)
+		id = (int(binary.BigEndian.Uint16(b[off+4:])) - 1) & 0xffff
 		switch kind {
 		case "tcp":
-			p1 = int(binary.BigEndian.Uint16(b[off+20:])) - 32768
+			p1 = (int(binary.BigEndian.Uint16(b[off+20:])) - 32768) & 0xffff
 			seq = binary.BigEndian.Uint32(b[off+24:])
 		case "udp":
-			p1 = int(binary.BigEndian.Uint16(b[off+20:])) - 32768
+			p1 = (int(binary.BigEndian.Uint16(b[off+20:])) - 32768) & 0xffff
 		case "icmp":
-			p1 = int(binary.BigEndian.Uint16(b[off+24:])) - 1
+			p1 = (int(binary.BigEndian.Uint16(b[off+24:])) - 1) & 0xffff
 		}
 	}
 	if kind == "icmp" && len(hx.UnHex(kv["payload"])) == 0 && len(b) >= off+28 {
@@ -255,7 +265,28 @@ func fillComponent(r *hx.Run) {
 			}
 		}
 	}
-	// 4. random
+	// 4. extreme draws: one seeded stream of frames per filler, searched for the first frame whose IP id /
+	// source port / ICMP id is at an end of its advertised range -- or outside it
+	budget := 1500000
+	if r.Tier == "thorough" {
+		budget = 8000000
+	}
+	for _, kind := range []string{"tcp", "udp", "icmp"} {
+		base := map[string]string{"tcp": "vpn=1;flags=2", "udp": "vpn=1;ttl=64;proto=17;ipflags=2;iplen=0;payload=-",
+			"icmp": "vpn=1;ttl=64;proto=1;ipflags=2;iplen=0;payload=0102;type=8;code=0"}[kind]
+		rq := plain()
+		seed := rng.Intn(1 << 30)
+		found := extremeDraws(kind, base, rq, seed, budget)
+		var classes []string
+		for class := range found {
+			classes = append(classes, class)
+		}
+		sortStrings(classes)
+		for _, class := range classes {
+			emit(kind, fmt.Sprintf("%s;seed=%d;skip=%d", base, seed, found[class]), rq, "plain", "extreme/"+class)
+		}
+	}
+	// 5. random
 	n := 600
 	if r.Tier == "thorough" {
 		n = 12000
@@ -289,4 +320,86 @@ func fillComponent(r *hx.Run) {
 			emit("arp", "-", rq, shape, "eth")
 		}
 	}
+}
+
+// extremeDraws runs the real filler `budget` times on one seeded math/rand stream and returns, per class
+// of extreme header value, the index of the first frame showing it.
+func extremeDraws(kind, opts, req string, seed, budget int) map[string]int {
+	found := map[string]int{}
+	kv := map[string]string{}
+	for _, p := range strings.Split(opts, ";") {
+		if i := strings.IndexByte(p, '='); i > 0 {
+			kv[p[:i]] = p[i+1:]
+		}
+	}
+	atoi := func(k string) int { v, _ := strconv.Atoi(kv[k]); return v }
+	rf := strings.Split(req, ",")
+	port, _ := strconv.Atoi(rf[4])
+	r := &scan.Request{SrcIP: net.IP(hx.UnHex(rf[0])), DstIP: net.IP(hx.UnHex(rf[1])), SrcMAC: hx.UnHex(rf[2]), DstMAC: hx.UnHex(rf[3]), DstPort: uint16(port)}
+	mrand.Seed(int64(seed))
+	var filler scan.PacketFiller
+	switch kind {
+	case "tcp":
+		var names []string
+		for n, b := range tcpFlagBits {
+			if atoi("flags")&b != 0 {
+				names = append(names, n)
+			}
+		}
+		filler = command.VerifTCPFlagFiller(names, true)
+	default:
+		v := &command.VerifOpts{VPNMode: true, TTL: uint8(atoi("ttl")), IPFlags: uint8(atoi("ipflags")), IPProto: uint8(atoi("proto")),
+			IPLen: uint16(atoi("iplen")), ICMPType: uint8(atoi("type")), ICMPCode: uint8(atoi("code")), Payload: hx.UnHex(kv["payload"])}
+		if kind == "udp" {
+			filler = command.VerifUDPFiller(v)
+		} else {
+			filler = command.VerifICMPFiller(v)
+		}
+	}
+	buf := gopacket.NewSerializeBuffer()
+	note := func(class string, k int) {
+		if _, ok := found[class]; !ok {
+			found[class] = k
+		}
+	}
+	for k := 0; k < budget; k++ {
+		buf.Clear()
+		if err := filler.Fill(buf, r); err != nil {
+			break
+		}
+		b := buf.Bytes()
+		if len(b) < 28 {
+			break
+		}
+		switch id := binary.BigEndian.Uint16(b[4:]); id {
+		case 0:
+			note("ipid-zero", k)
+		case 1:
+			note("ipid-min", k)
+		case 65535:
+			note("ipid-max", k)
+		}
+		if kind == "icmp" {
+			switch id := binary.BigEndian.Uint16(b[24:]); id {
+			case 0:
+				note("icmpid-zero", k)
+			case 1:
+				note("icmpid-min", k)
+			case 65535:
+				note("icmpid-max", k)
+			}
+			continue
+		}
+		switch sp := binary.BigEndian.Uint16(b[20:]); {
+		case sp < 32768:
+			note("sport-below", k)
+		case sp == 32768:
+			note("sport-min", k)
+		case sp == 60999:
+			note("sport-max", k)
+		case sp > 60999:
+			note("sport-above", k)
+		}
+	}
+	return found
 }
